@@ -258,6 +258,46 @@ func CLIMerged(bin string, args []string, stdin string, dir string, timeout time
 	return so.String(), cmd.ProcessState.ExitCode(), timedOut
 }
 
+// CLIMergedChunks is CLIMerged with the stdin bytes delivered piece by piece,
+// gap apart (the harness owns the delivery schedule of the pipe).
+func CLIMergedChunks(bin string, args []string, chunks []string, gap time.Duration, dir string, timeout time.Duration) (string, int, bool) {
+	cmd := exec.Command(bin, args...)
+	cmd.Dir = dir
+	in, err := cmd.StdinPipe()
+	if err != nil {
+		return "pipe: " + err.Error(), -1, false
+	}
+	var so bytes.Buffer
+	lw := &limitWriter{w: &so, n: 8 << 20}
+	cmd.Stdout, cmd.Stderr = lw, lw
+	cmd.Env = cleanEnv()
+	if err := cmd.Start(); err != nil {
+		return "start: " + err.Error(), -1, false
+	}
+	go func() {
+		for i, ch := range chunks {
+			if i > 0 {
+				time.Sleep(gap)
+			}
+			if _, err := in.Write([]byte(ch)); err != nil {
+				break
+			}
+		}
+		in.Close()
+	}()
+	done := make(chan error, 1)
+	go func() { done <- cmd.Wait() }()
+	timedOut := false
+	select {
+	case <-done:
+	case <-time.After(timeout):
+		cmd.Process.Kill()
+		<-done
+		timedOut = true
+	}
+	return so.String(), cmd.ProcessState.ExitCode(), timedOut
+}
+
 func cleanEnv() []string {
 	var env []string
 	for _, e := range os.Environ() {
